@@ -7,6 +7,7 @@ import (
 	"sort"
 	"strings"
 	"sync"
+	"sync/atomic"
 	"time"
 
 	"golang.org/x/tools/go/ssa"
@@ -643,21 +644,26 @@ type HarnessRun struct {
 	knownActive     map[string]bool
 	groups          map[string]bool // assertion label prefixes to check (nil = all)
 
-	mu            sync.Mutex
-	queue         []workItem
-	active        int
-	cond          *sync.Cond
-	paths         int
-	completed     int
-	infeasible    int
-	panicked      int
-	aborted       map[string]int
-	abortMsgs     map[string]int
-	branchTotal   int
-	feasUnknown   int
-	modelHits     int
-	searchHits    int
-	fuzzHits      int
+	mu          sync.Mutex
+	queue       []workItem
+	active      int
+	cond        *sync.Cond
+	paths       int
+	completed   int
+	infeasible  int
+	panicked    int
+	aborted     map[string]int
+	abortMsgs   map[string]int
+	branchTotal int
+	feasUnknown int
+	modelHits   int
+	searchHits  int
+	fuzzHits    int
+	// sampled second opinion on discharged assertions (a different solver on the same script)
+	crossEvery    int64
+	unsatSeen     int64
+	crossChecked  int
+	disagreements int
 	violCount     int
 	failFastAfter int
 	failFast      bool
@@ -783,6 +789,9 @@ func (e *Exec) doAssert(label string, c *Term) {
 			viol = e.currentScenario("violation", label)
 		}
 		e.popModel()
+		if r == "unsat" && h.crossEvery > 0 && atomic.AddInt64(&h.unsatSeen, 1)%h.crossEvery == 0 {
+			e.crossCheck(label, q)
+		}
 		if r == "unknown" && !hard {
 			// a fresh (non-incremental) run of the primary solver often decides what its incremental session could not
 			r = e.freshPrimary(q)
@@ -939,6 +948,34 @@ func (e *Exec) portfolioOf(q *Term, names []string) string {
 		}
 	}
 	return "unknown"
+}
+
+// crossCheck hands a query the primary solver answered "unsat" to another solver as a one-shot script.
+// A "sat" there is a solver disagreement (or an encoding the two read differently): reported, exit 2.
+func (e *Exec) crossCheck(label string, q *Term) {
+	e.flush()
+	var sb strings.Builder
+	for _, l := range e.tc.log {
+		sb.WriteString(l)
+		sb.WriteByte('\n')
+	}
+	sb.WriteString("(assert " + q.ref + ")\n(check-sat)\n")
+	other := "cvc5"
+	if e.solver.name == "cvc5" {
+		other = "z3"
+	}
+	r := runOneShot(other, sb.String(), 10000)
+	h := e.h
+	h.mu.Lock()
+	defer h.mu.Unlock()
+	h.crossChecked++
+	h.intrinsics["cross-check:"+other+":"+r]++
+	if r == "sat" {
+		h.disagreements++
+		if len(h.abortMsgs) < 50 {
+			h.abortMsgs["SOLVER-DISAGREEMENT on "+label+": "+e.solver.name+" unsat, "+other+" sat"]++
+		}
+	}
 }
 
 func (e *Exec) doCover(label string) {
